@@ -14,3 +14,4 @@ pub mod props;
 pub mod records;
 pub mod rng;
 pub mod seams;
+pub mod selftest;
